@@ -347,6 +347,26 @@ class _RawConfigParser(configparser.RawConfigParser):
     except KeyError:
       raise configparser.NoSectionError(section)
 
+  def _own_option(self, section, option):
+    return section in self._sections and self.optionxform(option) in self._sections[section]
+
+  def has_option(self, section, option):
+    """As options(): a key of [Variables] is not an entry of the other sections."""
+    if not section or section == self.default_section:
+      return super(_RawConfigParser, self).has_option(section, option)
+    return self._own_option(section, option)
+
+  def get(self, section, option, **kwargs):
+    # Values are looked up among the section's own entries ([Variables] still supplies ${NAME} substitutions):
+    # otherwise a variable that happens to be called 'nr', 'target' or 'x' would be read as that section's option.
+    if section != self.default_section and section in self._sections and not self._own_option(section, option):
+      vars_ = kwargs.get("vars")
+      if not (vars_ and self.optionxform(option) in vars_):
+        if "fallback" in kwargs and kwargs["fallback"] is not configparser._UNSET:
+          return kwargs["fallback"]
+        raise configparser.NoOptionError(option, section)
+    return super(_RawConfigParser, self).get(section, option, **kwargs)
+
   def optionxform(self, option):
     # Option keys are compared without regard to embedded whitespace (see _ConfigParserDict): apply the same
     # transformation here so that duplicate detection, has_option() and look-ups agree with what is stored.
